@@ -5,6 +5,7 @@ import (
 	"compress/gzip"
 	"compress/zlib"
 	"context"
+	"encoding/json"
 	"fmt"
 	"io/ioutil"
 	"net/http"
@@ -35,7 +36,8 @@ type FScript struct {
 	Pass  bool
 	Post  []Action
 	Fresh bool
-	MW    int // 0 a FilterFunction; 1 / 2 an http middleware (HttpMiddlewareHandlerToFilter) passing on the same / a derived request
+	MW    int  // 0 a FilterFunction; 1 / 2 an http middleware (HttpMiddlewareHandlerToFilter) passing on the same / a derived request
+	Wrap  bool // passes on restful.NewResponse(w), w an upper-casing writer around the response it was given
 }
 
 func actionsSx(l []Action) Sx {
@@ -46,7 +48,7 @@ func actionsSx(l []Action) Sx {
 	return out
 }
 func (f FScript) Sx() Sx {
-	return L(A(f.ID), actionsSx(f.Pre), B(f.Pass), actionsSx(f.Post), B(f.Fresh), f.MW)
+	return L(A(f.ID), actionsSx(f.Pre), B(f.Pass), actionsSx(f.Post), B(f.Fresh), f.MW, B(f.Wrap))
 }
 func fscriptsSx(l []FScript) Sx {
 	out := Ls{}
@@ -66,7 +68,7 @@ func fscriptsFromSx(s Sx) []FScript {
 	out := []FScript{}
 	for _, f := range sxList(s) {
 		out = append(out, FScript{ID: sxStr(sxNth(f, 0)), Pre: actionsFromSx(sxNth(f, 1)), Pass: sxBool(sxNth(f, 2)),
-			Post: actionsFromSx(sxNth(f, 3)), Fresh: sxBool(sxNth(f, 4)), MW: sxInt(sxNth(f, 5))})
+			Post: actionsFromSx(sxNth(f, 3)), Fresh: sxBool(sxNth(f, 4)), MW: sxInt(sxNth(f, 5)), Wrap: sxBool(sxNth(f, 6))})
 	}
 	return out
 }
@@ -90,7 +92,11 @@ func genActions(r *Rng, n int, panicPct int) []Action {
 	out := []Action{}
 	for i := 0; i < n; i++ {
 		switch p := r.Intn(100); {
-		case p < 3:
+		case p < 1:
+			out = append(out, Action{7, r.Pick([]string{"0", "1", "0"}), ""}) // resp.PrettyPrint(b)
+		case p < 4:
+			out = append(out, Action{8, entityCompact, entityPretty}) // resp.WriteAsJson(value)
+		case p < 6:
 			// user code drops a header (net/http's own 304 path drops Content-Encoding from under the compressor)
 			out = append(out, Action{6, r.Pick([]string{"X-A", "Content-Encoding", "Content-Encoding", "X-B"}), ""})
 		case p < 25:
@@ -117,14 +123,14 @@ func genFScripts(r *Rng, prefix string, max int, panicPct int) []FScript {
 	out := []FScript{}
 	for i := 0; i < n; i++ {
 		f := FScript{ID: prefix + itoa(i), Pre: genActions(r, r.Intn(3), panicPct), Pass: r.Pct(85),
-			Post: genActions(r, r.Intn(3), panicPct), Fresh: r.Pct(12)}
+			Post: genActions(r, r.Intn(3), panicPct), Fresh: r.Pct(12), Wrap: r.Pct(8)}
 		if r.Pct(15) {
 			// an http middleware: it only has the ResponseWriter and the *http.Request
-			f.MW, f.Fresh = 1+r.Intn(2), false
+			f.MW, f.Fresh, f.Wrap = 1+r.Intn(2), false, false
 			keep := func(l []Action) []Action {
 				out := []Action{}
 				for _, a := range l {
-					if a.Kind <= 2 || a.Kind >= 5 {
+					if a.Kind <= 2 || a.Kind == 5 || a.Kind == 6 {
 						out = append(out, a)
 					}
 				}
@@ -210,7 +216,7 @@ func genDisp(r *Rng) Sx {
 			pth := "/plain-" + itoa(k)
 			acts := []Action{}
 			for _, a := range genActions(r, 1+r.Intn(3), panicPct) {
-				if a.Kind <= 2 || a.Kind >= 5 {
+				if a.Kind <= 2 || a.Kind == 5 || a.Kind == 6 {
 					acts = append(acts, a)
 				}
 			}
@@ -378,8 +384,43 @@ func runActions(l []Action, rq *restful.Request, rp *restful.Response, lg *reqLo
 			panicWith(a.A)
 		case 6:
 			rp.Header().Del(a.A)
+		case 7:
+			rp.PrettyPrint(a.A == "1")
+		case 8:
+			rp.WriteAsJson(entityValue)
 		}
 	}
+}
+
+// the one value scripts write as an entity, and its two renderings (computed with encoding/json here: what a Response
+// makes of it depends on its pretty-print switch only)
+type entityT struct {
+	A int    `json:"a"`
+	S string `json:"s"`
+}
+
+var entityValue = entityT{7, "x"}
+var entityCompact, entityPretty = func() (string, string) {
+	var b bytes.Buffer
+	json.NewEncoder(&b).Encode(entityValue)
+	p, _ := json.MarshalIndent(entityValue, "", " ")
+	return b.String(), string(p)
+}()
+
+// a writer that upper-cases (ASCII) whatever is written through it
+type upperWriter struct{ inner http.ResponseWriter }
+
+func (u upperWriter) Header() http.Header { return u.inner.Header() }
+func (u upperWriter) WriteHeader(n int)   { u.inner.WriteHeader(n) }
+func (u upperWriter) Write(p []byte) (int, error) {
+	q := make([]byte, len(p))
+	for i, c := range p {
+		if c >= 'a' && c <= 'z' {
+			c -= 32
+		}
+		q[i] = c
+	}
+	return u.inner.Write(q)
 }
 
 // panic values are strings, except one: net/http's own sentinel error (its text is what fmt prints for it, so the
@@ -436,11 +477,14 @@ func mkFilter(f FScript, env *dispEnv) restful.FilterFunction {
 		lg.add("pre:" + f.ID)
 		runActions(f.Pre, rq, rp, lg)
 		if f.Pass {
+			rq2, rp2 := rq, rp
 			if f.Fresh {
-				ch.ProcessFilter(restful.NewRequest(rq.Request), rp)
-			} else {
-				ch.ProcessFilter(rq, rp)
+				rq2 = restful.NewRequest(rq.Request)
 			}
+			if f.Wrap {
+				rp2 = restful.NewResponse(upperWriter{rp})
+			}
+			ch.ProcessFilter(rq2, rp2)
 		}
 		runActions(f.Post, rq, rp, lg)
 		lg.add("post:" + f.ID)
@@ -477,20 +521,20 @@ func buildDisp(cfg Sx, env *dispEnv) *restful.Container {
 	c.DoNotRecover(!sxBool(sxNth(cfg, 6)))
 	rscript := actionsFromSx(sxNth(cfg, 7))
 	if !isDefaultReport(rscript) {
-	c.RecoverHandler(func(reason interface{}, w http.ResponseWriter) {
-		// the request is not passed to the handler: the log is found through a header the harness sets on the writer
-		id, _ := strconv.Atoi(w.Header().Get("X-Verif-Rid"))
-		lg := &reqLog{}
-		if id < len(env.logs) {
-			lg = env.logs[id]
-		}
-		lg.mu.Lock()
-		lg.recovered++
-		lg.events = append(lg.events, "recover:"+fmt.Sprint(reason))
-		lg.mu.Unlock()
-		rp := restful.NewResponse(w)
-		runActions(rscript, restful.NewRequest(&http.Request{Header: http.Header{}}), rp, lg)
-	})
+		c.RecoverHandler(func(reason interface{}, w http.ResponseWriter) {
+			// the request is not passed to the handler: the log is found through a header the harness sets on the writer
+			id, _ := strconv.Atoi(w.Header().Get("X-Verif-Rid"))
+			lg := &reqLog{}
+			if id < len(env.logs) {
+				lg = env.logs[id]
+			}
+			lg.mu.Lock()
+			lg.recovered++
+			lg.events = append(lg.events, "recover:"+fmt.Sprint(reason))
+			lg.mu.Unlock()
+			rp := restful.NewResponse(w)
+			runActions(rscript, restful.NewRequest(&http.Request{Header: http.Header{}}), rp, lg)
+		})
 	}
 	for _, ph := range sxList(sxNth(cfg, 11)) {
 		acts := actionsFromSx(sxNth(ph, 2))
@@ -606,7 +650,7 @@ func sortStrings(l []string) {
 	}
 }
 
-var errMsgRe = regexp.MustCompile(`40[46]: (Page Not Found|Not Found|Not Acceptable\n\nAvailable representations: [^<]*)|405: Method Not Allowed|415: Unsupported Media Type(\n\nAvailable representations: [^<]*)?`)
+var errMsgRe = regexp.MustCompile(`(?i)40[46]: (Page Not Found|Not Found|Not Acceptable\n\nAvailable representations: [A-Za-z0-9/+.*,;= -]*)|405: Method Not Allowed|415: Unsupported Media Type(\n\nAvailable representations: [A-Za-z0-9/+.*,;= -]*)?`)
 
 // serveOne runs request i of the history and returns its observation
 func serveOne(c *restful.Container, env *dispEnv, i int, h Sx) Sx {
